@@ -561,7 +561,7 @@ def check_C18(tier):
     if tier == "quick":
         rnd = random.Random(C.SEED)
         more = L.gen_family("esc", 4)
-        texts = texts + [t for t in more if len(t) == 4 and rnd.random() < 0.08]
+        texts = texts + [t for t in more if len(t) == 4 and rnd.random() < 0.04]
     else:
         rnd = random.Random(C.SEED)
         syms = sorted({c for t in texts for c in t})
@@ -605,7 +605,7 @@ def check_C18(tier):
         "traces_validated_against_impl": n_replayed,
         "samples": samples,
         "evaluations": len(cases), "distinct_nontrivial": sum(1 for o in obs if o.get("escaped") and o["escaped"] != o["s"]),
-        "rule": "texts = every string up to %d characters over the 13 meta-characters, - ! / a and a 2-byte letter without two adjacent separators%s; non-trivial = escaping changes the text" % (n, " plus a seeded 8%% sample of length 4" if tier == "quick" else " plus 20000 seeded strings of length 5-9"),
+        "rule": "texts = every string up to %d characters over the 13 meta-characters, - ! / a, a 2-byte letter and seven non-ASCII characters whose code point truncated to a byte is a meta-character / separator / backslash, without two adjacent separators%s; non-trivial = escaping changes the text" % (n, " plus a seeded 4%% sample of length 4" if tier == "quick" else " plus 20000 seeded strings of length 5-9"),
         "disagreements": nd, "known_findings_hit": sorted(v.findings), "exhaustive": True,
     }, time.time() - t0, len(v.violations), TRUSTED_LANG[:1] + ["the alphabet of candidate paths of a case is the characters of its text plus a letter, a separator and a backslash"])
     return rc
